@@ -10,6 +10,8 @@ CONSTANTS
   MaxLines = 4
   Kinds = {"bfix"}
   TokKinds = {"one", "ld8", "jp", "call", "ldhl", "lda", "jr", "djnz", "defw", "defb", "defm", "defs"}
+  DirTokKinds = {"one", "ld8", "jp", "call", "ldhl", "lda", "jr", "djnz", "defw", "defb", "defm", "defs"}
+  DirIns = 99
   Classes <- McClasses
   FlagSets <- McFlags
   TargetOffs = {1}
